@@ -47,6 +47,7 @@ class Heap:
         vcls = R("openfisca_core.variables.variable.Variable")
         self.vars = {n: Obj(vcls, {"name": n, "definition_period": dateunit(I, "month"), "is_neutralized": False}, label="var:" + n)
                      for n in ("salary", "age", "rent", "bonus", "allowance")}
+        self.vars["birth"] = Obj(vcls, {"name": "birth", "definition_period": dateunit(I, "eternity"), "is_neutralized": False}, label="var:birth")
         self.sim = Obj(R(SIM), {}, label="sim")
         self.persons = Obj(R(POP), {"entity": self.person_entity, "simulation": self.sim, "count": B.wrap(ctx.fresh_int("np")),
                                     "ids": ListVal(["a", "b"])}, label="persons")
@@ -61,7 +62,13 @@ class Heap:
         p1 = mk_period(I, "month", mk_instant(I, 2020, 1, 1), 1)
         p2 = mk_period(I, "month", mk_instant(I, 2020, 2, 1), 1)
 
-        def holder(var, pop, disk, empty=False):
+        def holder(var, pop, disk, empty=False, eternal=False):
+            if eternal:
+                from .c17_storage import eternity
+                mem = Obj(R(MEM), {"_arrays": dict_of([(eternity(I), arr("e1"))]), "is_eternal": True}, label=f"mem:{var}")
+                return Obj(R(HOLDER), {"population": pop, "variable": self.vars[var], "simulation": self.sim, "_eternal": True,
+                                       "_memory_storage": mem, "_disk_storage": None, "_on_disk_storable": False,
+                                       "_do_not_store": False}, label=f"holder:{var}")
             mem = Obj(R(MEM), {"_arrays": dict_of([] if empty else [(p1, arr("m1")), (p2, arr("m2"))]), "is_eternal": False}, label=f"mem:{var}")
             dsk = None
             if disk:
@@ -75,7 +82,8 @@ class Heap:
         self.h_rent = holder("rent", self.households, False)
         self.h_bonus = holder("bonus", self.persons, False, empty=True)        # a holder that exists but holds nothing yet
         self.h_allowance = holder("allowance", self.families, False)
-        self.persons.fields["_holders"] = dict_of([("salary", self.h_salary), ("age", self.h_age), ("bonus", self.h_bonus)])
+        self.h_birth = holder("birth", self.persons, False, eternal=True)       # a variable defined for eternity: one entry, read at any period
+        self.persons.fields["_holders"] = dict_of([("salary", self.h_salary), ("age", self.h_age), ("bonus", self.h_bonus), ("birth", self.h_birth)])
         self.households.fields["_holders"] = dict_of([("rent", self.h_rent)])
         self.families.fields["_holders"] = dict_of([("allowance", self.h_allowance)])
         tracer = Obj(R("openfisca_core.tracers.simple_tracer.SimpleTracer"), {"_stack": ListVal([])}, label="tracer")
@@ -154,6 +162,8 @@ def holder_checks(I, new, old, pop, sim, tag):
             continue
         res.append((f"{tag}{st}-is-its-own-object", isinstance(sn, Obj) and sn is not so))
         if isinstance(sn, Obj):
+            res.append((f"{tag}{st}-has-the-settings-of-the-original's", all(sn.fields.get(k) == so.fields.get(k) for k in ("is_eternal", "preserve_storage_dir", "storage_dir")
+                                                                           if k in so.fields)))
             for tb in tables:
                 to, tn = so.fields.get(tb), sn.fields.get(tb)
                 res.append((f"{tag}{st}{tb}-is-its-own-table", isinstance(tn, DictVal) and tn is not to))
@@ -185,12 +195,13 @@ class _NativeJudge:
 
 
 class HolderClone(_NativeJudge, Contract):
-    scenarios = ("write-on-clone-person-variable", "delete-on-clone-person-variable", "disk-backed-delete-on-clone")
+    scenarios = ("write-on-clone-person-variable", "delete-on-clone-person-variable", "disk-backed-delete-on-clone", "eternal-variable", "rewrite-on-clone-same-period")
     name = f"{HOLDER}.clone"
     prop = ("C13",)
     top_level = True
-    cases = ("memory-only", "disk-backed", "nothing-stored-yet")
-    descr = "a cloned holder belongs to the population given, owns its own storages with equal content, shares the variable"
+    cases = ("memory-only", "disk-backed", "nothing-stored-yet", "eternal-variable")
+    descr = ("a cloned holder belongs to the population given, owns its own storages with equal content and the same settings (a "
+             "variable defined for eternity keeps its single entry readable at every period), shares the variable")
     inline = ("openfisca_core.commons.misc.empty_clone", "openfisca_core.commons.misc.empty_clone.<locals>.__init__",
               MEM + ".*", "openfisca_core.periods.helpers.period*")
 
@@ -198,7 +209,7 @@ class HolderClone(_NativeJudge, Contract):
         h = Heap(I, ctx)
         newsim = Obj(I.resolve_qualified(SIM), {}, label="sim2")
         newpop = Obj(I.resolve_qualified(POP), {"simulation": newsim, "entity": h.person_entity}, label="persons2")
-        target = {"memory-only": h.h_salary, "disk-backed": h.h_age, "nothing-stored-yet": h.h_bonus}[case]
+        target = {"memory-only": h.h_salary, "disk-backed": h.h_age, "nothing-stored-yet": h.h_bonus, "eternal-variable": h.h_birth}[case]
         return {"self": target, "population": newpop, "__heap": h, "__snap": snapshot(reachable_owned(h, h.sim))}
 
     def post(self, I, ctx, a, out, old):
@@ -210,22 +221,44 @@ class HolderClone(_NativeJudge, Contract):
 
 
 class PopulationClone(_NativeJudge, Contract):
-    scenarios = ("person-holder-binding", "same-content")
+    scenarios = ("person-holder-binding", "same-content", "projection-used-before-cloning")
     name = f"{POP}.clone"
     prop = ("C13",)
     top_level = True
     descr = "a cloned population refers to the simulation given; each of its holders is a clone bound to it"
     inline = (f"{POP}.__init__", "openfisca_core.populations._core_population.CorePopulation.__init__")
 
+    cases = (None, "projections-were-used-before")
+
     def setup(self, I, ctx, case):
         h = Heap(I, ctx)
         newsim = Obj(I.resolve_qualified(SIM), {}, label="sim2")
+        if case is not None:
+            # history: formulas used person.household / person.family before the simulation was cloned (the real attribute look-up runs)
+            for shortcut in ("household", "family"):
+                try:
+                    I.getattr(ctx, h.persons, shortcut)
+                except Exception:
+                    pass
         return {"self": h.persons, "simulation": newsim, "__heap": h, "__snap": snapshot(reachable_owned(h, h.sim))}
+
+    @staticmethod
+    def _refers_to_original(v, originals, depth=0):
+        """v is, or is a projector onto / from, a population of the original simulation"""
+        if any(v is o for o in originals):
+            return True
+        if isinstance(v, Obj) and v.cls.name.endswith("Projector") and depth < 4:
+            return any(PopulationClone._refers_to_original(x, originals, depth + 1) for x in v.fields.values())
+        return False
 
     def _pop_checks(self, I, ctx, new, old, sim):
         res = [("new-population", isinstance(new, Obj) and new is not old)]
         if not isinstance(new, Obj):
             return res
+        h = self._heap
+        originals = [h.persons, h.households, h.families, h.sim]
+        bad = sorted(k for k, v in new.fields.items() if k != "members" and self._refers_to_original(v, originals))
+        res.append(("no-attribute-of-the-clone-refers-to-the-original-simulation-or-its-populations (not even through a projector)" + (": " + ",".join(bad) if bad else ""), not bad))
         res.append(("refers-to-the-clone-simulation", new.fields.get("simulation") is sim))
         res.append(("same-entity", new.fields.get("entity") is old.fields["entity"]))
         res.append(("same-count", B._zb(B.eq_formula(I, ctx, new.fields.get("count"), old.fields["count"]))))
@@ -243,12 +276,14 @@ class PopulationClone(_NativeJudge, Contract):
     def post(self, I, ctx, a, out, old):
         if out[0] != "return":
             return [("no-exception", False)]
+        self._heap = a["__heap"]
         res = self._pop_checks(I, ctx, out[1], a["self"], a["simulation"])
         res.append(("original-untouched", not unchanged(a["__snap"])))
         return res
 
 
 class GroupPopulationClone(PopulationClone):
+    cases = (None,)
     scenarios = ("group-holder-binding", "write-on-clone-group-variable")
     name = f"{GPOP}.clone"
     descr = ("a cloned group population refers to the simulation given, keeps its membership arrays; each of its holders is "
@@ -340,6 +375,7 @@ class SimulationClone(_NativeJudge, Contract):
         if isinstance(pops, DictVal):
             res.append(("same-population-keys", set(pops.items) == set(sim.fields["populations"].items)))
             pc = PopulationClone()
+            pc._heap = h
             for k, oldpop in sim.fields["populations"].items.items():
                 nm = sim.fields["populations"].keyvals[k]
                 newpop = pops.items.get(k)
